@@ -19,6 +19,7 @@
 
 #include <cstddef>
 #include <cstdint>
+#include <type_traits>
 
 #include <nop/base/encoding.h>
 #include <nop/base/utility.h>
@@ -130,6 +131,23 @@ class ConstexprBufferWriter {
   }
   constexpr void WriteElement(std::int64_t value, std::size_t offset) {
     WriteElement(static_cast<std::uint64_t>(value), offset);
+  }
+  // bool and the wide character types are distinct integral types: without an
+  // overload of their own they are promoted to int and stored as four bytes,
+  // past the range the bounds check in Write() admitted.
+  constexpr void WriteElement(bool value, std::size_t offset) {
+    WriteElement(static_cast<std::uint8_t>(value), offset);
+  }
+  constexpr void WriteElement(char16_t value, std::size_t offset) {
+    WriteElement(static_cast<std::uint16_t>(value), offset);
+  }
+  constexpr void WriteElement(char32_t value, std::size_t offset) {
+    WriteElement(static_cast<std::uint32_t>(value), offset);
+  }
+  constexpr void WriteElement(wchar_t value, std::size_t offset) {
+    using Lane = std::conditional_t<sizeof(wchar_t) == sizeof(std::uint16_t),
+                                    std::uint16_t, std::uint32_t>;
+    WriteElement(static_cast<Lane>(value), offset);
   }
 
   // TODO(eieio): At the time of this writing there isn't simple way to get the
